@@ -3,12 +3,14 @@ package props
 import (
 	"bufio"
 	"fmt"
+	"io"
 	"net"
 	"net/http"
 	"path/filepath"
 	"regexp"
 	"strings"
 	"sync"
+	"sync/atomic"
 	"syscall"
 	"time"
 
@@ -50,7 +52,11 @@ func c20Health(r *core.Run, agentBin string, md *fakes.Metadata, c c20HealthCase
 		i := idx
 		idx++
 		pass := i < len(c.Script) && c.Script[i] == 'P'
+		slow := i < len(c.Script) && c.Script[i] == 'S' // a check that takes 2.7 s to fail
 		mu.Unlock()
+		if slow {
+			time.Sleep(2700 * time.Millisecond)
+		}
 		keep := true
 		// the time stamp is taken before the reply is written: the earliest moment the agent can have seen it
 		// (stamping after the write let a descheduled handler record a time later than the agent's first poll)
@@ -190,16 +196,17 @@ func c20Health(r *core.Run, agentBin string, md *fakes.Metadata, c c20HealthCase
 }
 
 type c20ShutCase struct {
-	Name    string `json:"name"`
-	Signal  string `json:"signal"`
-	GraceS  int    `json:"grace_s"` // 0 = option off
-	Phase   string `json:"phase"`   // at-backend | uploading | idle
-	Finish  string `json:"finish"`  // inside | outside
-	FinishS float64
-	GraceMs int    `json:"grace_ms,omitempty"`              // > 0: a period that is not a whole number of seconds (overrides GraceS for the flag and the oracle)
-	Second  string `json:"second_signal,omitempty"`         // a second signal (INT/TERM) sent 300 ms after the first, during the period
-	Shim    bool   `json:"shim_enabled,omitempty"` // the agent runs with --shim-path/--shim-websockets
-	Health  bool   `json:"health_checks_enabled,omitempty"` // the agent also runs health checks (1 s interval, threshold 2) against a backend that always passes them
+	Name            string `json:"name"`
+	Signal          string `json:"signal"`
+	GraceS          int    `json:"grace_s"` // 0 = option off
+	Phase           string `json:"phase"`   // at-backend | uploading | idle
+	Finish          string `json:"finish"`  // inside | outside
+	FinishS         float64
+	GraceMs         int    `json:"grace_ms,omitempty"`                     // > 0: a period that is not a whole number of seconds (overrides GraceS for the flag and the oracle)
+	Second          string `json:"second_signal,omitempty"`                // a second signal (INT/TERM) sent 300 ms after the first, during the period
+	RejectFirstPost bool   `json:"first_response_post_rejected,omitempty"` // the proxy answers the first upload attempt of the in-flight request with 503
+	Shim            bool   `json:"shim_enabled,omitempty"`                 // the agent runs with --shim-path/--shim-websockets
+	Health          bool   `json:"health_checks_enabled,omitempty"`        // the agent also runs health checks (1 s interval, threshold 2) against a backend that always passes them
 }
 
 var c20BeginRe = regexp.MustCompile(`Begin graceful shutdown`)
@@ -351,6 +358,17 @@ func c20Shutdown(r *core.Run, agentBin string, md *fakes.Metadata, c c20ShutCase
 			return true
 		}
 	}
+	if c.RejectFirstPost {
+		var posts int64
+		px.OnResponse = func(id string, w http.ResponseWriter, req *http.Request) bool {
+			if atomic.AddInt64(&posts, 1) == 1 {
+				io.Copy(io.Discard, req.Body)
+				http.Error(w, "scripted transient failure", 503)
+				return true
+			}
+			return false
+		}
+	}
 	agent, err := startAgent(r, agentBin, "agent-"+c.Name, md, px.URL(), backend.Addr(), "b20-"+c.Name, args...)
 	if err != nil {
 		r.Broken(err.Error())
@@ -422,7 +440,11 @@ func c20Shutdown(r *core.Run, agentBin string, md *fakes.Metadata, c c20ShutCase
 		return
 	}
 	if c.Phase != "idle" {
-		px.Store(tok, tokRequest("GET", tok, 4000, 0, "c20.example", nil, nil), "")
+		respSize := 4000
+		if c.RejectFirstPost {
+			respSize = 300 // small enough for the agent to replay it in a second upload attempt
+		}
+		px.Store(tok, tokRequest("GET", tok, respSize, 0, "c20.example", nil, nil), "")
 		l1.rel <- []byte(fmt.Sprintf("[%q]", tok))
 		reached := atBackend
 		if c.Phase == "listed" || c.Phase == "body-streaming" {
@@ -480,6 +502,9 @@ func c20Shutdown(r *core.Run, agentBin string, md *fakes.Metadata, c c20ShutCase
 	}
 	if c.Shim {
 		cls += "|shim-on"
+	}
+	if c.RejectFirstPost {
+		cls += "|first-post-rejected"
 	}
 	if !confirm {
 		r.Case(cls)
@@ -547,7 +572,7 @@ func c20Shutdown(r *core.Run, agentBin string, md *fakes.Metadata, c c20ShutCase
 			u := ups[len(ups)-1]
 			if u.Resp == nil || u.Err != "" {
 				why = "upload incomplete: " + u.Err
-			} else if bad := checkTokResponse(u.Resp, map[bool]string{true: "POST", false: "GET"}[c.Phase == "body-streaming"], tok, 4000); len(bad) > 0 {
+			} else if bad := checkTokResponse(u.Resp, map[bool]string{true: "POST", false: "GET"}[c.Phase == "body-streaming"], tok, map[bool]int{true: 300, false: 4000}[c.RejectFirstPost]); len(bad) > 0 {
 				why = fmt.Sprint(bad)
 			} else {
 				ok = true
@@ -592,7 +617,12 @@ func C20(r *core.Run) {
 		add(2, "closed", "PFPFP")
 		add(3, "non200", "FPFFPFFP")
 		add(2, "non200", "P")
+		add(3, "non200", "PSPP") // one check that is slow to fail, between passing ones: far from three consecutive failures
 	} else {
+		add(3, "non200", "PSPP")
+		add(3, "non200", "PSPSP")
+		add(2, "non200", "PSP")
+		add(3, "non200", "FPSSP")
 		for t := 1; t <= 3; t++ {
 			for _, kind := range []string{"non200", "closed"} {
 				for k := 0; k <= 3; k++ {
@@ -639,6 +669,8 @@ func C20(r *core.Run) {
 	// the websocket shim enabled: prompt exit without a period, and the usual behaviour with one
 	scs = append(scs, c20ShutCase{Name: fmt.Sprintf("s%d", len(scs)), Signal: "TERM", GraceS: 0, Phase: "idle", Finish: "inside", FinishS: 1, Shim: true},
 		c20ShutCase{Name: fmt.Sprintf("s%d", len(scs)+1), Signal: "INT", GraceS: 2, Phase: "at-backend", Finish: "inside", FinishS: 1, Shim: true})
+	// the proxy rejects the first upload attempt of the in-flight response (a transient 503): the retry must still happen during the period
+	scs = append(scs, c20ShutCase{Name: fmt.Sprintf("s%d", len(scs)), Signal: "INT", GraceS: 4, Phase: "at-backend", Finish: "inside", FinishS: 1, RejectFirstPost: true})
 	// a backend that stays busy far beyond the period (longer than the progress bound): the process still exits when the period ends
 	scs = append(scs, c20ShutCase{Name: fmt.Sprintf("s%d", len(scs)), Signal: "TERM", GraceS: 2, Phase: "at-backend", Finish: "outside", FinishS: 16})
 	// a period that is not a whole number of seconds, with the backend finishing in its last second; and a second signal during the period
